@@ -148,9 +148,101 @@ def h_quick_sort(cname, lens, ascending, nan=False):
     return discharge(h, '%s lens=%s asc=%d%s' % (cname, lens, ascending, ' with-NaN' if nan else ''), oracle, [], timeout_ms=30000, extra=dict(bounds=dict(lens=list(lens))))
 
 
+CMP = {'sort': ('src/cpu-kernels/awkward_sort.cpp', 'sort_order'), 'argsort': ('src/cpu-kernels/awkward_argsort.cpp', 'argsort_order')}
+CT2C = {'double': 'double', 'float': 'float', 'int64_t': 'int64_t', 'uint32_t': 'uint32_t', 'int8_t': 'int8_t'}
+
+
+def shim_text(which, ctype):
+    from .build import repo_path
+    rel, base = CMP[which]
+    return ('#include "%s"\nextern "C" bool vf_cmp_asc(%s l, %s r) { return %s_ascending<%s>(l, r); }\n'
+            'extern "C" bool vf_cmp_desc(%s l, %s r) { return %s_descending<%s>(l, r); }\n') % (repo_path(rel), ctype, ctype, base, ctype, ctype, ctype, base, ctype)
+
+
+@guard
+def h_comparator(which, ctype, direction):
+    """the comparator std::sort / std::stable_sort are instantiated with must be a strict weak ordering for every value, NaN included -
+    otherwise the standard algorithms have undefined behaviour (std::sort's unguarded partition runs off the segment or never stops).
+    The comparator templates are lowered from the repo source through a two-line shim that only names the instantiation."""
+    import os, subprocess
+    from . import build
+    from .irparse import Module
+    from .llbmc import Engine, Mem
+    from .mharness import mdischarge
+    rel = CMP[which][0]
+    mod = Module(build.compile_ir_text(shim_text(which, ctype), 'cmp_%s_%s' % (which, ctype.replace(' ', '')), [rel]))
+    from . import kspec as _k
+    kind, bits, signed = _k.CT[ctype]
+    fn = 'vf_cmp_' + direction
+
+    class M:
+        pass
+    m = M()
+    m.s = z3.Solver()
+    m.eng = Engine([mod], m.s, unwind=4)
+    m.eng.stubs.update(BASE_STUBS)
+    m.sym = {}
+    srt = (z3.Float64() if bits == 64 else z3.Float32()) if kind == 'f' else z3.BitVecSort(bits)
+    x, y, z = [z3.Const(n, srt) for n in 'xyz']
+
+    def C(a, b):
+        out = m.eng.call(fn, [a, b], Mem(), z3.BoolVal(True))
+        r = out.ret
+        return r == 1 if r.size() == 1 else z3.Extract(0, 0, r) == 1
+
+    def solve(cond, timeout_ms=30000):
+        s = z3.Solver(); s.set('timeout', timeout_ms); s.add(cond)
+        r = s.check()
+        return r, (s.model() if r == z3.sat else None)
+    m.solve = solve
+    E = lambda a, b: z3.And(z3.Not(C(a, b)), z3.Not(C(b, a)))
+    obls = [('irreflexive: comp(x, x) is false', C(x, x)),
+            ('asymmetric: comp(x, y) implies not comp(y, x)', z3.And(C(x, y), C(y, x))),
+            ('transitive', z3.And(C(x, y), C(y, z), z3.Not(C(x, z)))),
+            ('incomparability is transitive', z3.And(E(x, y), E(y, z), z3.Not(E(x, z))))]
+    if kind == 'f':
+        nanfirst = z3.And(z3.fpIsNaN(x), z3.Not(z3.fpIsNaN(y)), z3.Not(C(x, y)))
+        obls.append(('NaN orders before every number', nanfirst))
+
+    def replay(model, ent):
+        drv = shim_text(which, ctype) + ('''
+#include <cstdio>
+#include <cstdlib>
+#include <cstring>
+int main(int argc, char** argv) {
+  %s v[3]; unsigned long long raw;
+  for (int i = 0; i < 3; i++) { raw = strtoull(argv[1 + i], nullptr, 10); memcpy(&v[i], &raw, sizeof(v[i])); }
+  bool (*c)(%s, %s) = !strcmp(argv[4], "asc") ? vf_cmp_asc : vf_cmp_desc;
+  printf("%%d %%d %%d %%d %%d %%d %%d\\n", c(v[0], v[0]), c(v[0], v[1]), c(v[1], v[0]), c(v[1], v[2]), c(v[2], v[1]), c(v[0], v[2]), c(v[2], v[0]));
+  return 0;
+}
+''' % (ctype, ctype, ctype))
+        exe = build.compile_driver(drv, [], sanitize=False)
+        raws = []
+        for v in (x, y, z):
+            mv = model.eval(v, model_completion=True)
+            raws.append(z3.simplify(z3.fpToIEEEBV(mv)).as_long() if kind == 'f' and not mv.isNaN() else
+                        ((0x7ff8000000000000 if bits == 64 else 0x7fc00000) if kind == 'f' else mv.as_long()))
+        r = subprocess.run([exe] + [str(v) for v in raws] + [direction], capture_output=True, text=True, timeout=20)
+        xx, xy, yx, yz, zy, xz, zx = [int(t) for t in r.stdout.split()]
+        bad = []
+        if xx: bad.append('comp(x,x) is true')
+        if xy and yx: bad.append('comp(x,y) and comp(y,x)')
+        if xy and yz and not xz: bad.append('not transitive')
+        if (not xy and not yx) and (not yz and not zy) and (xz or zx): bad.append('incomparability not transitive')
+        if ent['name'].startswith('NaN') and not xy: bad.append('NaN does not order before a number')
+        return (bool(bad), 'native comparator on raw values %s: %s' % (raws, ', '.join(bad) or 'strict weak ordering holds'), dict(raw=raws))
+    return mdischarge(m, 'comparator %s_%s<%s> is a strict weak ordering' % (CMP[which][1], 'ascending' if direction == 'asc' else 'descending', ctype),
+                      obls, [], timeout_ms=30000, replay=replay, extra=dict(bounds='all values of the type, NaN and infinities included'))
+
+
 def jobs(tier):
     K = kspec.by_name()
     js = []
+    for which in ('sort', 'argsort'):
+        for ct in ('double', 'float', 'int64_t', 'uint32_t', 'int8_t'):
+            for d in ('asc', 'desc'):
+                js.append((h_comparator, (which, ct, d), 300))
     types_q = ('int64', 'float64', 'int8', 'uint32', 'bool', 'float32')
     int_lens = [(0,), (1,), (2,), (3,), (2, 1)] if tier == 'quick' else \
         [l for r in (1, 2) for l in itertools.product(range(5), repeat=r) if sum(l) <= 6]
